@@ -37,6 +37,7 @@ func init() {
 			ruleCorsOnlyServed(c, "R4")
 			ruleRefusedPreflights(c, "R5")
 			ruleSummaryRebuilt(c, "R6")
+			ruleHeaderShortcut(c, "R7")
 			ruleSummaryByBuilder(c, "R6b")
 		},
 	})
